@@ -139,3 +139,43 @@ claim(
     "Trusted: python ast, bfsa, bfsa.constaudit; sympy (tooling venv) as polynomial normaliser in the thorough tier. Callers pass canonical integers to the low-level point constructors.",
     "DESIGN.md section 4, C17",
 )
+
+
+# ---- additions after the first build: concrete-control scenarios and rules added from the seeded-change campaign
+def _extend(pid, tech, text):
+    CLAIMS[pid]["technique"] += "; " + tech
+    CLAIMS[pid]["text"] += " " + text
+
+
+_SCEN = ("abstract interpretation with concrete control of synthetic call sequences (fixed lengths, symbolic contents; AES block function, CRC-16 and EC operations as "
+         "uninterpreted functions with the axioms licensed by C16 / C15 / C17) and term-identity comparison after XOR canonicalisation")
+_extend("C16", _SCEN + " against SP 800-38A written in the same term algebra; syntax-tree scan for state shared between cipher objects",
+        "Additionally, for enumerated call sequences / chunkings with symbolic contents, every output byte of the ECB, CBC, CFB (segment 1, 8, 16), OFB and CTR mode objects and of the "
+        "Encrypter / Decrypter feeders (PKCS#7 and no padding) equals the SP 800-38A term for the concatenated input; PKCS#7 append for lengths 0..48; no mutable default argument, "
+        "class-level container or global statement shares state between cipher objects.")
+_extend("C08", _SCEN,
+        "Additionally, for EVERY payload length 0..253 with symbolic payload and key, the ciphertext produced through the registered adapter and the pyaes feeder is CBC(zero IV) of exactly "
+        "'B' | len+2 | 1..16 zeros | payload | CRC-16 (recovered from the ciphertext terms) and unwrapping returns exactly the payload; 254 bytes are refused; customer-key slot insert / blank "
+        "for enumerated (length, position) pairs; SHA-256[:16] keyed variant.")
+_extend("C06", _SCEN,
+        "Additionally, for enumerated content lengths (all residues mod 16) the stored bytes of an encrypted component are CBC_sessionkey(zero IV) of the zero-padded content and reading back "
+        "returns the content followed by zeros with declared length and flag kept.")
+_extend("C01", _SCEN,
+        "Additionally, for enumerated file shapes (0..3 components, mixed encryption, tag sets incl. empty values, several offsets) Bf3File.from_binary(Bf3File.to_binary(f)) with MAC checks "
+        "returns the same components (tags, values, content, declared length, flag) for symbolic contents and session key.")
+_extend("C03", _SCEN + " against an independent writer of the documented layout in the same term algebra",
+        "Additionally, for the same enumerated file shapes the written bytes are identical, term by term, to an independently written reference of the documented layout including both CBC-MACs.")
+_extend("C02", _SCEN,
+        "Additionally, for 31 enumerated BEC2 scenarios (block subsets and orders, key selectors 0..3, customer key present / absent, decryptor subsets, symbolic and boundary versions) "
+        "reading back the written file returns the same blocks, the session key as the identical 16 symbolic bytes, and the same content.")
+_extend("C07", _SCEN,
+        "Additionally: a file without explicit key draws exactly one random key; each block opened on its own yields that key; each write of an ECC block uses a new ephemeral key; the BF3 part is keyed with the file's key.")
+_extend("C09", _SCEN + "; structural rules for the DH secret encoding (fixed-width number_to_string evaluated for 7 moduli)",
+        "Additionally: the ECC block bytes of the scenarios are selector | 04 | ephemeral point | CBC_k(session key) with k = sha256(ECDH x)[:16]; the DH secret is generate_sharedsecret_bytes of "
+        "(own key, validated peer key), the x coordinate encoded with the fixed width of the field prime.")
+_extend("C13", "relational normal form of the gap test between consecutive data lines",
+        "Additionally: a new run starts exactly when a line's absolute address differs from the end of the previous line.")
+_extend("C17", "field-wise equality rule with term substitution self->other and hash/equality agreement",
+        "Additionally: CurveFp / CurveEdTw / Point / Curve equality compares every defining parameter of self with the same parameter of other and agrees with __hash__.")
+_extend("C18", "term-shape rule for the FIPS 186-4 leftmost-bits truncation",
+        "Additionally: the hash integer is string_to_number(digest[:baselen]) >> max(0, 8*len - bit_length(order)); over-long digests are refused without truncation.")
